@@ -184,9 +184,106 @@ def step (flags : List String) (line : String) : String :=
     | _, _ => "bad-op"
   | _ => "bad-op"
 
+/-! ### rule-level cases: `rule <TABLES> <IX> | <PLAN>` → what each transformation rule makes of the root of the plan -/
+
+mutual
+def showExprW : Expr → List String
+  | .lit v => [showVal v]
+  | .col i => [s!"c{i}"]
+  | .not e => "not" :: showExprW e
+  | .neg e => "neg" :: showExprW e
+  | .pos e => "pos" :: showExprW e
+  | .and a b => "and" :: (showExprW a ++ showExprW b)
+  | .or a b => "or" :: (showExprW a ++ showExprW b)
+  | .cmp op a b =>
+    (match op with | .eq => "eq" | .ne => "ne" | .lt => "lt" | .le => "le" | .gt => "gt" | .ge => "ge") :: (showExprW a ++ showExprW b)
+  | .arith op a b =>
+    (match op with | .add => "add" | .sub => "sub" | .mul => "mul" | .div => "div" | .mod => "mod") :: (showExprW a ++ showExprW b)
+  | .like n a b => (if n then "nlike" else "like") :: (showExprW a ++ showExprW b)
+  | .isNull n e => (if n then "notnull" else "isnull") :: showExprW e
+  | .between n e lo hi => (if n then "nbtw" else "btw") :: (showExprW e ++ showExprW lo ++ showExprW hi)
+  | .inList n e xs => ((if n then "nin" else "in") ++ toString xs.length) :: (showExprW e ++ showExprsW xs)
+def showExprsW : List Expr → List String
+  | [] => []
+  | e :: es => showExprW e ++ showExprsW es
+end
+
+def showKind : JoinKind → String
+  | .inner => "inner" | .left => "left" | .right => "right" | .full => "full" | .cross => "cross"
+
+def showBoundW (b : Bound) : List String := [s!"b{b.pos}", if b.inclusive then "in" else "ex", showVal b.value]
+
+def showPlanW : Plan → List String
+  | .scan t => ["scan", s!"t{t}"]
+  | .indexScan t k lo hi resid =>
+    ["ixscan", s!"t{t}", s!"x{k}", s!"lo{lo.length}"] ++ lo.flatMap showBoundW ++ [s!"hi{hi.length}"] ++ hi.flatMap showBoundW
+      ++ (match resid with | none => ["-"] | some e => "r" :: showExprW e)
+  | .filter e c => "filter" :: (showExprW e ++ showPlanW c)
+  | .project items c => "project" :: s!"p{items.length}" :: (showExprsW items ++ showPlanW c)
+  | .join k on l r =>
+    "join" :: showKind k :: ((match on with | none => ["-"] | some e => "on" :: showExprW e) ++ showPlanW l ++ showPlanW r)
+
+def pPlan : Nat → P Plan
+  | 0, _ => none
+  | _, [] => none
+  | fuel + 1, w :: ws =>
+    match w with
+    | "scan" => match ws with
+      | t :: r => (numAfter "t" t).map fun t => (.scan t, r)
+      | [] => none
+    | "filter" => (pExpr (fuel + 1) ws).bind fun (e, r) => (pPlan fuel r).map fun (c, r) => (.filter e c, r)
+    | "project" => match ws with
+      | n :: r => (numAfter "p" n).bind fun n => (pExprs (fuel + n + 1) n r).bind fun (es, r) =>
+          (pPlan fuel r).map fun (c, r) => (.project es c, r)
+      | [] => none
+    | "join" => match ws with
+      | k :: r => (joinKindOfWord k).bind fun k => (pOn (fuel + 1) r).bind fun (on, r) =>
+          (pPlan fuel r).bind fun (l, r) => (pPlan fuel r).map fun (rr, r) => (.join k on l rr, r)
+      | [] => none
+    | _ => none
+
+def parseRuleTable (ixs : List (Nat × List Nat)) (t : Nat) (w : String) : Option STable :=
+  if w.isEmpty then none else
+  match allSome (w.toList.map (fun c => tyOfChar c.toUpper)) with
+  | none => none
+  | some tys =>
+    some { tys := tys, notNull := w.toList.map Char.isLower, rows := [],
+           indexes := (ixs.filter (fun x => x.1 == t)).map (fun x => { cols := x.2, entries := [] }) }
+
+def showAlts (ps : List Plan) : String :=
+  if ps.isEmpty then "-" else joinWith " & " (ps.map (fun p => joinWith " " (showPlanW p)))
+
+def ruleStep (D : Plan.Defects) (line : String) : String :=
+  match words line with
+  | "rule" :: tw :: ixw :: "|" :: rest =>
+    match parseIxs ixw with
+    | none => "bad-op"
+    | some ixs =>
+      let tws := tw.splitOn "/"
+      if ixs.any (fun x => x.1 ≥ tws.length) then "bad-op" else
+      match allSome ((List.range tws.length).map (fun t => parseRuleTable ixs t (tws.getD t ""))) with
+      | none => "bad-op"
+      | some st =>
+        if st.any (fun tb => tb.indexes.any (fun ix => ix.cols.any (fun c => c ≥ tb.tys.length)) || tb.indexes.length > 15) then "bad-op" else
+        match pPlan (rest.length + 1) rest with
+        | some (p, []) =>
+          let ixn := match p with
+            | .filter _ (.scan t) => (st.getD t default).indexes.length
+            | _ => 0
+          joinWith " ; " [
+            "JoinCommutativity:" ++ showAlts (joinCommute D st p).toList,
+            "JoinAssociativity:" ++ showAlts (joinAssoc D st p).toList,
+            "FilterMerge:" ++ showAlts (filterMerge p).toList,
+            "FilterPushdownJoin:" ++ showAlts (filterPushdownJoin D st p).toList,
+            "FilterPushdownProject:" ++ showAlts (filterPushdownProject D p).toList,
+            "FilterToIndexScan:" ++ showAlts ((List.range ixn).filterMap (fun k => filterToIndexScan D st k p))]
+        | _ => "bad-op"
+  | _ => "bad-op"
+
 end AxVerif.Plan
 
 namespace AxVerif.Drivers
 def plan (flags : List String) (line : String) : String :=
-  AxVerif.Plan.step flags line
+  if line.startsWith "rule " then AxVerif.Plan.ruleStep (AxVerif.Plan.planDefects flags) line
+  else AxVerif.Plan.step flags line
 end AxVerif.Drivers
